@@ -12,10 +12,10 @@ from pathlib import Path
 from harness import cli_engine as E
 from harness import common as C
 
-INPUTS = ["single", "multi", "twohap", "cut"]
+INPUTS = ["single", "multi", "twohap", "cut", "threehap"]
 PLANS = {
-    "quick": dict(proc_runs=2, proc_cap=150, inproc_runs=3, inproc_cap=400, seeds=["0", "1", "random"], spec_seeds=["1", "random"]),
-    "thorough": dict(proc_runs=3, proc_cap=600, inproc_runs=3, inproc_cap=819, seeds=["0", "1", "2", "random"], spec_seeds=["1", "2", "3", "random"]),
+    "quick": dict(proc_runs=2, proc_cap=150, inproc_runs=3, inproc_cap=400, seeds=["0", "1", "random"], spec_seeds=["1", "random"], slot_cap=80),
+    "thorough": dict(proc_runs=3, proc_cap=600, inproc_runs=3, inproc_cap=819, seeds=["0", "1", "2", "random"], spec_seeds=["1", "2", "3", "random"], slot_cap=625),
 }
 
 
@@ -51,11 +51,22 @@ def asm_rows(outdir):
     return E.sha(json.dumps(res, sort_keys=True).encode())
 
 
-def one_run(base, inp, fmt, seed, cwd, cache, buf, k, inproc):
+def one_run(base, inp, fmt, seed, cwd, cache, buf, k, inproc, slot=False):
     """execute one run; returns (exit, files digest, asm digest)"""
     base = Path(base)
-    ind = base / "inp" / inp
-    if not ind.exists():
+    ind = base / "inp" / ("slot" if slot else inp)
+    if slot:
+        # one path for every input: the files are replaced when the input changes (the cache files beside the FASTA are left as they are)
+        import time
+        ind.mkdir(parents=True, exist_ok=True)
+        mark = ind / "holds"
+        if not mark.exists() or mark.read_text() != inp:
+            time.sleep(0.02)
+            fa, agp = E.cfg_inputs(inp)
+            (ind / "in.fa").write_text(fa)
+            (ind / "p.agp").write_text(agp)
+            mark.write_text(inp)
+    elif not ind.exists():
         ind.mkdir(parents=True)
         if inp.startswith("spec:"):
             d = C.REPO / "tests" / "data" / inp[5:]
@@ -90,6 +101,9 @@ def one_run(base, inp, fmt, seed, cwd, cache, buf, k, inproc):
     else:
         rc, text, exc = E.run_subproc(args, env={"PYTHONHASHSEED": seed}, cwd=wd)
     files = E.snapshot(out, norm=[str(out), str(ind), os.path.relpath(out, base), os.path.relpath(ind, base)])
+    if slot:
+        # the log of a run that finds a stale cache says so (three more lines): the log is left out of the comparison for these histories
+        files = {n: d for n, d in files.items() if not n.endswith(".log")}
     return rc, E.sha(json.dumps(files, sort_keys=True).encode()), asm_rows(out)
 
 
@@ -98,10 +112,11 @@ def run_history(sc):
     runs = []
     for k, r in enumerate(sc["hist"], 1):
         try:
-            rc, files, asm = one_run(base, r["inp"], r["fmt"], r["seed"], r["cwd"], r["cache"], r["buf"], k, sc["mode"] == "inproc")
+            rc, files, asm = one_run(base, r["inp"], r["fmt"], r["seed"], r["cwd"], r["cache"], r["buf"], k, sc["mode"] in ("inproc", "inslot"),
+                                     slot=sc["mode"] == "inslot")
         except Exception as e:  # noqa: BLE001
             rc, files, asm = 97, "exc:" + type(e).__name__, ""
-        ref = sc["refs"][r["inp"] + "/" + r["fmt"]]
+        ref = sc["refs"][r["inp"] + ("/slot" if sc["mode"] == "inslot" else "/" + r["fmt"])]
         runs.append(dict(r, exit=rc, files=files, asm=asm, ref_files=ref[1], ref_asm=sc["refs"][r["inp"] + "/*"]))
     shutil.rmtree(base, ignore_errors=True)
     return {"tid": sc["tid"], "mode": sc["mode"], "runs": runs}
@@ -112,11 +127,18 @@ def reference(job):
     base = tempfile.mkdtemp(prefix="c17ref-", dir=root)
     rc, files, asm = one_run(base, inp, fmt, "0", "abs", "clear", 250000, 1, False)
     shutil.rmtree(base, ignore_errors=True)
-    return inp, fmt, rc, files, asm
+    nolog = ""
+    if fmt == "fa" and not inp.startswith("spec:"):
+        # the same canonical run digested without its log file (reference of the in-slot histories)
+        base = tempfile.mkdtemp(prefix="c17ref-", dir=root)
+        ind = Path(base) / "inp" / "slot"
+        _, nolog, _ = one_run(base, inp, fmt, "0", "abs", "clear", 250000, 1, False, slot=True)
+        shutil.rmtree(base, ignore_errors=True)
+    return inp, fmt, rc, files, asm, nolog
 
 
 def export(run, mode, maxruns, fmts, name):
-    cfg = (f'SPECIFICATION Spec\nCHECK_DEADLOCK FALSE\nCONSTRAINT Emit\nINVARIANT Deterministic\nINVARIANT FormatIndependent\nCONSTANTS Inputs = {{"single", "multi", "twohap", "cut"}} '
+    cfg = (f'SPECIFICATION Spec\nCHECK_DEADLOCK FALSE\nCONSTRAINT Emit\nINVARIANT Deterministic\nINVARIANT FormatIndependent\nCONSTANTS Inputs = {{"single", "multi", "twohap", "cut", "threehap"}} '
            f'Formats = {{{", ".join(chr(34) + f + chr(34) for f in fmts)}}} Seeds = {{"0", "1", "random"}} Dirs = {{"abs", "rel"}} Bufs = {{250000, 7}} Seed0 = "0" Dir0 = "abs" Buf0 = 250000 '
            f'MaxRuns = {maxruns} Mode = "{mode}"\n')
     r = C.tlc_ok(C.tlc("Determinism", cfg, run.dir, name=name, workers=1, timeout=1200), "Determinism export")
@@ -131,10 +153,12 @@ def main(tier, replay=None):
     specimens = ["spec:" + os.path.basename(d.rstrip("/")) for d in sorted(glob.glob(str(C.REPO / "tests" / "data") + "/*/"))]
     jobs = [(root, i, f) for i in INPUTS for f in ("fa", "agp", "tpf")] + [(root, s, "tpf") for s in specimens]
     refs = {}
-    for inp, fmt, rc, files, asm in C.pmap("harness.c17", "reference", jobs, chunk=1):
+    for inp, fmt, rc, files, asm, nolog in C.pmap("harness.c17", "reference", jobs, chunk=1):
         if rc != 0:
             raise C.Machinery(f"reference run failed for {inp}/{fmt} (exit {rc})")
         refs[inp + "/" + fmt] = (rc, files, asm)
+        if nolog:
+            refs[inp + "/slot"] = (rc, nolog, asm)
     for i in INPUTS:
         refs[i + "/*"] = refs[i + "/fa"][2]
     for s in specimens:
@@ -151,7 +175,10 @@ def main(tier, replay=None):
         hp = rng.sample(hp, plan["proc_cap"])
     if len(hi) > plan["inproc_cap"]:
         hi = rng.sample(hi, plan["inproc_cap"])
-    scen = [{"mode": "proc", "hist": h} for h in hp] + [{"mode": "inproc", "hist": h} for h in hi]
+    hs, rs = export(run, "inslot", 4, ["fa"], "det-inslot")
+    if len(hs) > plan["slot_cap"]:
+        hs = rng.sample(hs, plan["slot_cap"])
+    scen = [{"mode": "proc", "hist": h} for h in hp] + [{"mode": "inproc", "hist": h} for h in hi] + [{"mode": "inslot", "hist": h} for h in hs]
     # the 12 real specimens under other hash seeds
     for s in specimens:
         for sd in plan["spec_seeds"]:
@@ -163,13 +190,14 @@ def main(tier, replay=None):
     n = C.report(run, "C17", jr["V"], {t["tid"]: t for t in traces})
     nruns = sum(len(t["runs"]) for t in traces)
     cov = {
-        "states": rp["distinct"] + ri["distinct"], "transitions": rp["generated"] + ri["generated"], "traces_validated_against_impl": jr["judged"],
+        "states": rp["distinct"] + ri["distinct"] + rs["distinct"], "transitions": rp["generated"] + ri["generated"] + rs["generated"], "traces_validated_against_impl": jr["judged"],
         "exhaustive": False, "evaluations": nruns, "distinct_nontrivial": len({json.dumps(s["hist"]) for s in scen if len(s["hist"]) > 1}) + len(specimens),
         "rule": "histories exported by TLC from Determinism.tla: (proc) a canonical cold run followed by runs of the same input under any hash seed in "
                 "{0,1,random}, relative/absolute paths with another working directory, cache kept or cleared, input as FASTA/AGP/TPF - every run a fresh "
-                "process; (inproc) every sequence of 3 in-process invocations over 3 inputs x 3 formats x 2 buffer sizes; seeded samples of both sets are "
+                "process; (inproc) every sequence of 3 in-process invocations over the inputs x 3 formats x 2 buffer sizes; (inslot) sequences of 4 in-process "
+                "invocations whose FASTA input is written to one and the same path, replaced when the input changes; seeded samples of the sets are "
                 "executed, plus the 12 specimens under further hash seeds; every run's digests are compared with the canonical run's",
-        "histories_in_model": {"proc": rp["distinct"], "inproc": ri["distinct"]}, "histories_executed": {"proc": len(hp), "inproc": len(hi), "specimens": len(specimens) * len(plan["spec_seeds"])},
+        "histories_in_model": {"proc": rp["distinct"], "inproc": ri["distinct"], "inslot": rs["distinct"]}, "histories_executed": {"proc": len(hp), "inproc": len(hi), "inslot": len(hs), "specimens": len(specimens) * len(plan["spec_seeds"])},
         "runs_executed": nruns, "reference_runs": len(jobs),
         "samples": [traces[0], traces[len(hp) + 1]], "known_findings_seen": run.known,
     }
